@@ -1,5 +1,7 @@
 import LicenseExpr.Lemmas.WF
 import LicenseExpr.Lemmas.RenderText
+import LicenseExpr.Lemmas.RenderSpelled
+import LicenseExpr.Props.C04
 import LicenseExpr.Props.C18
 import LicenseExpr.Lemmas.Order
 import LicenseExpr.Model.Api
@@ -19,8 +21,13 @@ each of its licenses is read back from its key (`AtomOK`: the key is one word an
 tokenizer's look-up of that word gives the license: a known key of the table with its flag, or an
 unknown valid key). `C05_text_default`: the same with the default tokenizer for tables without
 aliases whose keys are single words (the ScanCode table is of this kind), through C18. `C05_fixpoint`:
-the rendering of the re-parsed expression is the same text again. For tables with multi-word names
-and aliases the text level is covered by the correspondence run.
+the rendering of the re-parsed expression is the same text again. `C05_text_general`: the default
+tokenizer over tables *with* aliases and keys of several words — every table whose multi-word names
+contain no operator word or parenthesis (`OpWordFree`, `KwOwned`; both evaluated by the driver on the
+tables of the run): an expression whose known licenses are keys the table stores for them alone
+(`C05_key_ok`: every key of a table that is unambiguous in the matcher's terms) and whose unknown
+licenses use no word of a stored name renders to a text that parses back to it. What remains with
+the correspondence run: tables with operator words inside multi-word names.
 -/
 namespace LE
 
@@ -80,6 +87,43 @@ theorem C05_fixpoint (c : Cls) (hc : ClsOK c) (T : Table) (hT : SpaceFreeT c T) 
   rw [C05_text_default c hc T hT e hwf ha] at h
   cases h; rfl
 
+/-- **C05 (text, default tokenizer, tables with aliases and multi-word names)**: for every table whose
+    multi-word names contain no operator word or parenthesis and in which no name reads as a bare
+    operator, rendering an expression (nodes with at least two operands) and parsing the text gives the
+    expression back, when every license of it reads back from its key (`AtomOKG`: the words of the key
+    are a stored name of that license alone — `C05_key_ok` —, or the license is unknown, its key is what
+    its words spell and none of them occurs in a stored name). -/
+theorem C05_text_general (c : Cls) (hc : ClsOK c) (T : Table) (hop : OpWordFree c T) (hkw : KwOwned c T)
+    (e : Expr Atom) (hwf : BP.WFE e) (ha : ∀ a ∈ literals e, AtomOKG c T a) :
+    parseFull c T false false false (renderStr e) = .ok e :=
+  parse_render_general c hc T hop hkw e hwf ha
+
+/-- … and that text is a fixed point of parse-then-render -/
+theorem C05_fixpoint_general (c : Cls) (hc : ClsOK c) (T : Table) (hop : OpWordFree c T) (hkw : KwOwned c T)
+    (e : Expr Atom) (hwf : BP.WFE e) (ha : ∀ a ∈ literals e, AtomOKG c T a) (e' : Expr Atom)
+    (h : parseFull c T false false false (renderStr e) = .ok e') : renderStr e' = renderStr e := by
+  rw [C05_text_general c hc T hop hkw e hwf ha] at h
+  cases h; rfl
+
+/-- every key of a table that is unambiguous in the matcher's terms reads back as its license -/
+theorem C05_key_ok (c : Cls) (T : Table) (hu : namesUniqueB c T = true) (e : Entry) (he : e ∈ T)
+    (hw : wordsOf c e.key ≠ []) : SymOKG c T ⟨e.key, e.exc⟩ := by
+  have hn : (e.key, symVal e) ∈ entryAdds c e := by simp [entryAdds]
+  have hmem : (e.key, symVal e) ∈ addsOf c T := by
+    unfold addsOf
+    exact List.mem_append_right _ (List.mem_flatMap.mpr ⟨e, he, hn⟩)
+  have hown : OwnedBy c T (wordsOf c e.key) ⟨e.key, e.exc⟩ := by
+    apply ownedW_spec
+    unfold namesUniqueB at hu
+    simp only [List.all_eq_true, Bool.or_eq_true] at hu
+    have := hu (wordsOf c e.key, symVal e) (by simp only [storedW, List.mem_map]; exact ⟨_, hmem, rfl⟩)
+    rcases this with h | h
+    · exact absurd (by simpa using h) hw
+    · simpa [symVal] using h
+  refine ⟨?_, Or.inl hown⟩
+  intro h0
+  exact hw (by rw [wordsOf_unfolded, h0]; rfl)
+
 /-- the premises are satisfiable: over ASCII, the table {mit, GPL[exception]}, the expression
     `mit AND (foo OR mit WITH GPL)` with the unknown license `foo` -/
 example : (∀ a ∈ literals (Expr.node .and [.atom (.lic ⟨[109, 105, 116], false⟩),
@@ -120,6 +164,26 @@ example :
         (OperandSeg.unknown [⟨23, [109, 121], .word⟩, ⟨27, [84, 104, 105, 110, 103], .word⟩] (by decide) (by decide) (by decide) rfl))
         SegsFor.nil))
   simpa using h
+
+/-- the premises of `C05_text_general` are satisfiable: over ASCII, the table {mit; GPL[exception] alias
+    "gnu gpl"; "Apache 2" (a key of two words)}, the expression `mit WITH GPL OR (my Thing AND Apache 2)` -/
+example :
+    let T : Table := [⟨[109, 105, 116], [], false⟩, ⟨[71, 80, 76], [[103, 110, 117, 32, 103, 112, 108]], true⟩,
+      ⟨[65, 112, 97, 99, 104, 101, 32, 50], [], false⟩]
+    OpWordFree asciiCls T ∧ KwOwned asciiCls T ∧ namesUniqueB asciiCls T = true ∧
+    (∀ a ∈ literals (Expr.node .or [.atom (.withE ⟨[109, 105, 116], false⟩ ⟨[71, 80, 76], true⟩),
+        .node .and [.atom (.lic ⟨[109, 121, 32, 84, 104, 105, 110, 103], false⟩), .atom (.lic ⟨[65, 112, 97, 99, 104, 101, 32, 50], false⟩)]]),
+      AtomOKG asciiCls T a) := by
+  intro T
+  have hu : namesUniqueB asciiCls T = true := by decide
+  refine ⟨opWordFree_of_B _ _ (by decide), kwOwned_of_B _ _ (by decide), hu, ?_⟩
+  intro a ha
+  simp [literals] at ha
+  rcases ha with rfl | rfl | rfl
+  · exact ⟨C05_key_ok asciiCls T hu ⟨[109, 105, 116], [], false⟩ (by decide) (by decide),
+      C05_key_ok asciiCls T hu ⟨[71, 80, 76], [[103, 110, 117, 32, 103, 112, 108]], true⟩ (by decide) (by decide)⟩
+  · exact ⟨by decide, Or.inr ⟨by decide, by decide, rfl⟩⟩
+  · exact C05_key_ok asciiCls T hu ⟨[65, 112, 97, 99, 104, 101, 32, 50], [], false⟩ (by decide) (by decide)
 
 /-- non-vacuity: `a OR (b OR c)` keeps its nesting through the skeleton -/
 example : BP.parse (BP.toksOf (fun _ => false) (Expr.node .or [.atom 1, .node .or [.atom 2, .atom 3]]))
